@@ -375,6 +375,60 @@ def _r11a_output(P, R):
 
 
 # ------------------------------------------------------------------------------------------------------------------ R11-b
+def _strip_deref(e):
+    e = _strip(e)
+    while e is not None and e.get("k") == "Unary" and e.get("op") in ("Deref", "*"):
+        e = _strip(e["e"])
+    return e or {}
+
+
+def _inplace_merge(P, R, f, tag, orig, ext, e_fields, grows, pv):
+    """the in-place idiom: nothing of the original can be lost unless a component is overwritten or shrunk; each mergeable
+    component must be extended, unconditionally and once per extension in iteration order, with the extensions' same component"""
+    dropped = []
+    for n in f.walk():
+        if n.get("k") in ("Assign", "AssignOp"):
+            l = _strip_deref(n["l"])
+            if l.get("k") == "Field" and norm(l.get("adt", "")) == orig:
+                dropped.append("assignment to `%s`" % l["field"])
+        elif n.get("k") == "MethodCall" and n["method"] in LOSSY_OR_REORDERING:
+            r_ = _strip_deref(n["recv"])
+            if r_.get("k") == "Field" and norm(r_.get("adt", "")) == orig:
+                dropped.append("`%s` on `%s`" % (n["method"], r_["field"]))
+    R.check("R11-b", tag + ":exhaustive-pattern", not dropped, "the original is kept whole and extended in place",
+            "%s merges in place but also changes components of the original (%s): their content is lost" % (f.path, dropped), loc=f.loc())
+    R.check("R11-b", tag + ":result-literal", not dropped, "result is the original, extended in place",
+            "%s merges in place but also changes components of the original (%s)" % (f.path, dropped), loc=f.loc())
+    for name in e_fields:
+        key = "%s:concat:%s" % (tag, name)
+        mine = [(i, n) for i, n in grows if _strip_deref(n["recv"])["field"] == name]
+        if not mine:
+            touched = any(n.get("k") == "Field" and n.get("field") == name and norm(n.get("adt", "")) == orig for n in f.walk())
+            lent = any(n.get("k") == "AddrOf" and n.get("mut") and norm(peel_ty(n.get("t"))) == orig for n in f.walk())
+            if not touched and not lent:
+                R.violated("R11-b", key, "%s merges in place but never touches `%s` of the original: the result's `%s` is the original's alone, "
+                           "the extensions' `%s` is lost" % (f.path, name, name, name), loc=f.loc())
+            else:
+                R.undecided("R11-b", key, "%s extends components in place, but no append to `%s` was recognised" % (f.path, name), loc=f.loc())
+            continue
+        why = []
+        for i, n in mine:
+            aa = pv.atoms(n["args"][-1])
+            if not has_field(aa, ext, name) or any(has_field(aa, ext, o) for o in e_fields if o != name):
+                why.append("the appended value is not the extensions' `%s`" % name)
+            if any(x.get("k") == "MethodCall" and x["method"] in LOSSY_OR_REORDERING for x in subnodes(n["args"][-1])):
+                why.append("elements are dropped or reordered before appending")
+            ctx = enclosing_contexts(f, i)
+            if any(c[0] in ("if-then", "if-else", "let-else") or (c[0] == "arm" and c[1] is not None and not str(c[1].get("src", "")).startswith("ForLoop")) for c in ctx):
+                why.append("the append is conditional")
+            if not any(c[0] == "loop" for c in ctx):
+                why.append("the append is not inside the loop over the extensions")
+        if len(mine) > 1:
+            why.append("`%s` is appended to %d times" % (name, len(mine)))
+        R.check("R11-b", key, not why, "`%s` extended in place with every extension's `%s`, in order" % (name, name),
+                "%s: merged `%s` is not original.%s followed by every extension's `%s` (%s)" % (f.path, name, name, name, "; ".join(sorted(set(why)))), loc=f.loc())
+
+
 def r11b(P, R):
     mf = merge_fns(P)
     names = [g for g, _, _ in mf]
@@ -388,18 +442,28 @@ def r11b(P, R):
         for h in sc[1:]:
             if h.path not in [g.path for g in names]:
                 helpers[h.path] = h
-        # 1. original destructured exhaustively (no `..`), so a new field cannot be forgotten silently
         pats = [n for n in f.walk() if n.get("k") == "Struct" and "rest" in n and norm(n.get("pat_adt")) == orig]
-        if not pats:
+        lits = [n for n in f.walk() if n.get("k") == "Struct" and "rest" not in n and norm(n.get("adt")) == orig]
+        based = [n for n in lits if "base" in n or n.get("default_tail")]
+        e_fields = [x for x in e_adt.fields() if x not in NOT_MERGED]
+        # second idiom: the original is kept whole and each component is extended in place (`merged.f.extend(ext.f)` per extension)
+        grows = [(i, n) for i, (n, _) in enumerate(f.nodes()) if n.get("k") == "MethodCall" and n["args"]
+                 and _strip_deref(n["recv"]).get("k") == "Field" and norm(_strip_deref(n["recv"]).get("adt", "")) == orig
+                 and n["method"] in ("extend", "append", "extend_from_slice", "push")]
+        inplace = not pats and not lits and bool(grows)
+        if inplace:
+            _inplace_merge(P, R, f, tag, orig, ext, e_fields, grows, pv)
+        # 1. original destructured exhaustively (no `..`), so a new field cannot be forgotten silently
+        elif not pats:
             R.undecided("R11-b", tag + ":exhaustive-pattern", "%s does not take the original apart with a struct pattern; not decided for this shape" % f.path, loc=f.loc())
         else:
             ok = all(not p["rest"] and {x["name"] for x in p["fields"]} == set(o_adt.fields()) for p in pats)
             R.check("R11-b", tag + ":exhaustive-pattern", ok, "original destructured without `..`",
                     "%s does not destructure the original exhaustively (a `..` or missing field lets a component be dropped)" % f.path, loc=f.loc())
         # 2. result literal without ..base, one literal
-        lits = [n for n in f.walk() if n.get("k") == "Struct" and "rest" not in n and norm(n.get("adt")) == orig]
-        based = [n for n in lits if "base" in n or n.get("default_tail")]
-        if based:
+        if inplace:
+            pass
+        elif based:
             R.violated("R11-b", tag + ":result-literal", "%s builds its result with `..base`: components not listed are copied without merging" % f.path, loc=f.loc())
         elif len(lits) == 1:
             R.holds("R11-b", tag + ":result-literal", "result built field by field", loc=f.loc())
@@ -425,7 +489,6 @@ def r11b(P, R):
         reads = set()
         for h in sc:
             reads |= field_reads(h)
-        e_fields = [x for x in e_adt.fields() if x not in NOT_MERGED]
         for ef in e_fields:
             R.check("R11-b", "%s:ext-read:%s" % (tag, ef), (ext, ef) in reads,
                     "extension component `%s` is read" % ef,
@@ -604,7 +667,14 @@ def _is_try(ctx):
 
 
 def _err_sites(fn, rg):
-    return [(i, n) for i, (n, _) in enumerate(fn.nodes()) if n.get("k") == "Struct" and "rest" not in n
+    """where the function fails: `Err(..)` constructions (however the payload is built: struct literal, `.into()`, helper); if the
+    function has none, literals of the error struct"""
+    acc = fn.nodes()
+    errs = [(i, n) for i, (n, _) in enumerate(acc) if n.get("k") == "Call" and (call_name(n) or "").endswith("result::Result::Err")
+            and not str(n.get("x", "")).startswith("desugar")]
+    if errs:
+        return errs
+    return [(i, n) for i, (n, _) in enumerate(acc) if n.get("k") == "Struct" and "rest" not in n
             and (norm(n.get("adt", "")) == rg.err if rg.err else norm(n.get("adt", "")).endswith("Error"))]
 
 
@@ -795,7 +865,7 @@ def r11e(P, R):
                            "merged in document order / some are dropped" % (m, el, f.path), loc=f.loc())
             else:
                 R.holds("R11-e", key, "order-preserving use `%s` on a collection of %s" % (m, el.split("::")[-1]), loc=f.loc())
-    R.floor("R11-e", "operations on extension collections", n, 4)
+    R.floor("R11-e", "operations on extension collections", n, 3)
 
 
 RULES = [("R11-a", r11a), ("R11-b", r11b), ("R11-d", r11d), ("R11-e", r11e)]
